@@ -572,6 +572,7 @@ class Solver:
             st.solver = st.solver.shallow_copy()
         old_conn = copy(self.connections)
         old_mapping = copy(self.pin_mapping)
+        old_defaults = copy(self.default_params)
         if solvers == []:
             return False
 
@@ -614,6 +615,7 @@ class Solver:
                         up_dic[lower_st][top] = middle
             for lower_st in st.solver.structures:
                 lower_st.param_mapping.update(up_dic[lower_st])
+        self.default_params = old_defaults
 
         return True
 
